@@ -1579,9 +1579,12 @@ def normalize_module(tree: ast.Module, modname: str, log: list[str] | None = Non
             for q2, f2, c2, b2 in fns:
                 if f2 is f:
                     continue
+                keys_f = [k for k, v in helpers.items() if v[0] is f]
                 for n in ast.walk(f2):
-                    if isinstance(n, ast.Call) and _dotted(n.func) in [k for k, v in helpers.items() if v[0] is f]:
+                    if isinstance(n, ast.Call) and _dotted(n.func) in keys_f:
                         still_called = True
+                    elif isinstance(n, (ast.Name, ast.Attribute)) and isinstance(getattr(n, "ctx", None), ast.Load) and _dotted(n) in keys_f:
+                        still_called = True  # passed as a callable (sort key, map function): not inlined, must stay defined
             if not still_called and (f.name, ) and any(v[0] is f for v in helpers.values()) and f in b:
                 b.remove(f)
                 if not b:
